@@ -70,11 +70,13 @@ pub struct CaseSpec {
     pub spurious_seed: Option<u64>,
     pub finish_order: u64,
     pub remove_on_drop: bool,
+    /// truncate is also issued while other arena values / owned handles are alive (C18 histories)
+    pub shared_truncate: bool,
 }
 
 impl CaseSpec {
     pub fn to_json(&self) -> Value {
-        json!({"cfg": self.cfg.to_json(), "spurious_seed": self.spurious_seed, "finish_order": self.finish_order, "remove_on_drop": self.remove_on_drop})
+        json!({"cfg": self.cfg.to_json(), "spurious_seed": self.spurious_seed, "finish_order": self.finish_order, "remove_on_drop": self.remove_on_drop, "shared_truncate": self.shared_truncate})
     }
     pub fn from_json(v: &Value) -> Option<CaseSpec> {
         Some(CaseSpec {
@@ -82,6 +84,7 @@ impl CaseSpec {
             spurious_seed: v.get("spurious_seed").and_then(|x| x.as_u64()),
             finish_order: v.get("finish_order")?.as_u64()?,
             remove_on_drop: v.get("remove_on_drop").and_then(|x| x.as_bool()).unwrap_or(false),
+            shared_truncate: v.get("shared_truncate").and_then(|x| x.as_bool()).unwrap_or(false),
         })
     }
 }
@@ -106,6 +109,7 @@ fn run_generic<A: Ar>(spec: &CaseSpec, tag: u64, mut source: impl FnMut(&Exec<A>
         e.a().remove_on_drop(true);
         e.remove_on_drop = true;
     }
+    e.shared_truncate = spec.shared_truncate;
     e.global_checks();
     loop {
         if e.dead {
@@ -137,6 +141,9 @@ pub fn run_generated(profile: &Profile, seed: u64, run: u64) -> (CaseSpec, CaseO
         spurious_seed: if profile.spurious && cfg.sync && crng.chance(1, 2) { Some(crng.next_u64()) } else { None },
         finish_order: crng.next_u64(),
         remove_on_drop: cfg.backend == Backend::File && profile.prop == "C13" && crng.chance(1, 2),
+        // a quarter of the C18 histories: the others keep truncating unshared arenas only, so that the known
+        // finding about shared ones does not end every long history
+        shared_truncate: profile.prop == "C18" && crate::rng::mix(run) % 4 == 0,
     };
     let mut orng = Rng::derive(seed, run, 2);
     let mut count = 0u64;
